@@ -103,7 +103,7 @@ jose_cfg_incref(jose_cfg_t *cfg)
 void
 jose_cfg_decref(jose_cfg_t *cfg)
 {
-    if (cfg->refs-- == 1)
+    if (cfg && cfg->refs-- == 1)
         free(cfg);
 }
 
